@@ -116,7 +116,7 @@ Definition ex_tree : obj :=
     Scp (plain_hdr (s_ "s")) [Scp (plain_hdr (s_ "t")) [Def (plain_hdr (s_ "c")) [uw (s_ "3")] []] []] [(s_ "multiple", ABool true)]] [].
 Example C18_example :
   names_nonempty ex_tree /\
-  exists v, extract_obj (fun _ => None) (fun s => s) ex_tree = Ok v
+  exists v, extract_obj (fun _ => None) (fun s => Some s) ex_tree = Ok v
             /\ map (fun nd => join_dot (snd (fst nd))) (reach [] [] v) = [[]; s_ "s"; s_ "s"; s_ "s.t"].
 Proof.
   split.
